@@ -138,6 +138,9 @@ def gen_knobs(g, prop):
         "tie_window": g.pick([0, 0, 1e-3]),
         "jitter": g.pick([0, 0, 1e-6, 2e-5]),
     }
+    late = g.pick([2e-3, 2e-3, 2e-3, 0.05, 0.5])
+    if late != 2e-3:
+        k["timer_late_max"] = late  # wake-ups of different workers drift apart (they are started in phase by the common start time)
     return k
 
 
@@ -584,6 +587,7 @@ class RaceHarness(Harness):
         cct = []  # CompleteCurrentTask handled: (vtime, worker cell aid)
         jpr = []  # JoinPointReached sent by worker
         driver_sent_cct = []
+        drives, jpr_sent, cct_position, extra_on_send = {}, {}, {}, []
 
         def observe(system, cell, msg, sender):
             cname = cell.cls.__name__
@@ -594,9 +598,14 @@ class RaceHarness(Harness):
                     rc_docs.extend(pickle.loads(zlib.decompress(msg.metrics)))
             elif cname == "Worker":
                 worker_cells[cell.aid] = cell
+                if mname == "Drive":
+                    drives[cell.aid] = drives.get(cell.aid, 0) + 1
                 if mname == "CompleteCurrentTask":
                     # judged from the instant the handler has *returned* (the actor thread may be descheduled inside it)
                     pending_cct.append(cell.aid)
+                    # where this worker is, from the messages alone: it has reported the join point that closes the element it was
+                    # told to drive (and waits for the next Drive) iff it has sent one JoinPointReached more than it received Drives
+                    cct_position[cell.aid] = (jpr_sent.get(cell.aid, 0), drives.get(cell.aid, 0))
                     try:
                         if cell.inst.client_allocations is not None and cell.inst.at_joinpoint():
                             reach["cct_before_late_start" if cell.inst.start_driving else "cct_while_waiting_at_join_point"] += 1
@@ -624,20 +633,23 @@ class RaceHarness(Harness):
         def handled(cell, msg):
             if type(msg).__name__ == "CompleteCurrentTask" and cell.aid in pending_cct:
                 pending_cct.remove(cell.aid)
-                inst = cell.inst
-                try:
-                    if not inst.complete._flag:
-                        return  # ignored: the worker had already finished that element and waits at the next join point
-                    idx = inst.next_task_index if inst.at_joinpoint() else inst.current_task_index
-                    names = {a.task.task.name for a in inst.client_allocations.tasks(idx) if hasattr(a.task, "task")}
-                except Exception:
-                    return
-                cct.append((sim_clock[0].now, cell.aid, names))
+                sent, driven = cct_position.get(cell.aid, (0, 0))
+                if sent == driven + 1 or driven == 0:
+                    return  # the worker had already finished that element and waits at the next join point: nothing left to cut
+                # the message concerns the element of the last Drive (FIFO driver -> worker: it cannot overtake the next Drive)
+                cct.append((sim_clock[0].now, cell.aid, driven - 1))
 
         sim_clock = []
 
+        def on_send_observe(src, dst, msg):
+            if src is not None and src.cls is not None and src.cls.__name__ == "Worker" and type(msg).__name__ == "JoinPointReached":
+                jpr_sent[src.aid] = jpr_sent.get(src.aid, 0) + 1
+            for fn in extra_on_send:
+                fn(src, dst, msg)
+
         def prepare(system, simes, out, rcfg):
             system.on_handled = handled
+            system.on_send = on_send_observe
             sim_clock.append(system.clock)
             if not fault:
                 return
@@ -654,7 +666,7 @@ class RaceHarness(Harness):
                         state["anchored"] = True
                         state["anchor_fire"](system.clock.now)
 
-                system.on_send = on_send
+                extra_on_send.append(on_send)
             if k == "interrupt":
                 if "on" in fault:
                     state["anchor_fire"] = lambda now: setattr(system, "interrupt_at", now + fault["at"])
@@ -891,23 +903,24 @@ class RaceHarness(Harness):
         # 3b. once a worker has handled CompleteCurrentTask, each of its clients issues at most one further request of the element
         #     (the one whose throttle sleep was already running; the flag is re-read after every response)
         spans = info["element_spans"]
-        for T, waid, names in cct:
-            eis = {info["element_of"][n] for n in names if n in info["element_of"]}
-            if len(eis) != 1:
+        #     This covers every row of an over-committed element: rows that have not started when the message is handled are skipped.
+        for T, waid, ei in cct:
+            if not 0 <= ei < len(schedule):
                 continue
-            ei = eis.pop()
             el = schedule[ei]
             if "parallel" not in el or not el["parallel"].get("completed-by"):
                 continue
             cb = el["parallel"]["completed-by"]
+            names = {t["name"] for t in el["parallel"]["tasks"]}
             mine = set((worker_clients or {}).get(waid, []))
             later = {}
             for (task, client, key), t_first in info["first_send_of_request"].items():
                 if client in mine and task in names and task != cb and t_first > T:
-                    later.setdefault((task, client), []).append(t_first)
-            for (task, client), ts in later.items():
+                    later.setdefault(client, []).append((t_first, task))
+            for client, ts in later.items():
                 if len(ts) > 1:
-                    bad("completed-by", "kept-running-after-complete", f"element {ei}: client {client} issued {len(ts)} further requests of task {task} after its worker had handled CompleteCurrentTask at {T:.6f} (at {sorted(ts)[:3]})")
+                    ts.sort()
+                    bad("completed-by", "kept-running-after-complete", f"element {ei}: client {client} issued {len(ts)} further requests ({sorted({x[1] for x in ts})}) after its worker had handled CompleteCurrentTask at {T:.6f} (at {[round(x[0], 6) for x in ts[:3]]})")
                     break
         # 3a. CompleteCurrentTask only while an element with completed-by is running
         probes_cct_delivered = info["probes"].get("complete_current_task_delivered", 0)
